@@ -1,24 +1,24 @@
 import MxModel.Proofs.IOSpecClosed
+import MxModel.Proofs.IOKeys
 /-!
 # C18 – an IOSpec lives exactly as long as a reference to its value
 
 Property theorems only (lemmas: `Proofs/IOSpec*.lean`; model: `Kernels/IOSpec.lean`).  The model
-is bug-faithful: six behaviours of modelx break the property.  Each is a decidable predicate on
-(state, operation) – `trigCellsName`, `trigDoubleSpec`, `trigDirtyDelete`, `trigUpdateOnto`,
-`trigClosedNew`, `trigPathAlias` – and `AllClean kw st ops` says that no operation of a history
-meets any of them.
+is bug-faithful: four behaviours of modelx break the property.  Each is a decidable predicate on
+(state, operation) – `trigCellsName`, `trigDoubleSpec`, `trigDirtyDelete`, `trigUpdateOnto` – and
+`AllClean kw st ops` says that no operation of a history meets any of them.
 
 Closed models are inside every quantifier: `close` only deletes the model's specs and takes it out
 of the registry, its handles keep working, and the model performs every operation on a closed model
 as on an open one (only handles of deleted spaces, and names of models/spaces that never existed,
 are answered `dead` with the state unchanged - which is what `DeletedObjectError` does).  What
-`close` promises – the IOManager holds nothing of a closed model – is `closed_models_hold_no_spec_partial`;
-it fails for `new_pandas` through the handle of a closed model (`close_releases_fails_closed_model`).
+`close` promises – the IOManager holds nothing of a closed model – is `closed_models_hold_no_spec_partial`
+(`new_pandas` through the handle of a closed model is refused since the repair of
+C18-closed-model-new-spec; the former witness is a positive example below).
 
-File locations: `Spec.path` is the io key as the code holds it (`pathlib`: `./a.csv` = `a.csv`,
-but `sub/../a.csv` ≠ `a.csv`); `normPath` gives the file it denotes.  `keys_distinct` is about keys
-(full strength), `locations_distinct_partial` about files (`LocN`), `locations_distinct_fails_path_alias`
-is the witness that the latter needs its hypothesis.  The full statements
+File locations: since the repair of C18-path-alias the io key is the lexically normalised path
+(`normPath`: `./a.csv` = `sub/../a.csv` = `a.csv`), so the key IS the file below the model's folder
+and `locations_distinct` holds at full strength; the former witness is a positive example below.  The full statements
 are false of the model and of modelx: every `…_fails_…` theorem below is the negation of a full
 statement, with the witness history that is also replayed on the implementation
 (`corpus/C18/known-*.json`, known findings `C18-…`).
@@ -75,7 +75,7 @@ creating models, spaces and cells, `new_pandas` (accepted or rejected), assignme
 any name (new name, rebinding, a second name for a value, names of cells and spaces, invalid
 names), deletion of references and of spaces, `update_pandas` in place and with a new object,
 sheet and path changes, `del_spec`, `close`, on any model or space, open, closed, deleted or never
-created – that avoids the six triggers, the statement holds (for every model, closed ones
+created – that avoids the four triggers, the statement holds (for every model, closed ones
 included: a closed model has no spec, and whatever is created through its handles afterwards is
 tracked like anything else). -/
 theorem spec_iff_referenced_partial (kw : List String) (ops : List Op) (h : AllClean kw {} ops) :
@@ -112,21 +112,14 @@ theorem rejected_creation_leaves_nothing (kw : List String) (ops : List Op) (o :
     (newPandas kw (run kw {} ops) o n path csv sheet data).1.cells = (run kw {} ops).cells :=
   newPandas_rejected (sidOK_run kw ops {} ⟨by simp [sp], by simp [sp]⟩) he
 
-/-- **keys_distinct** (full strength: every history, clean or not).  Two different specs under
-one io KEY of one model (the path as `pathlib` compares it): the file is an Excel file, both name a
-sheet, the names differ (a csv file, and a sheet-less spec, are never shared) – whatever was
-created, updated, deleted, moved by the path setter, and whatever sheets were set. -/
-theorem keys_distinct (kw : List String) (ops : List Op) : Loc (run kw {} ops).specs :=
+/-- **locations_distinct** (full strength: every history, clean or not).  "Two specs never claim
+the same file location": two different specs of one model under one io key – the lexically
+normalised path, i.e. the file below the model's folder, however the path was spelt (`a.csv`,
+`./a.csv`, `sub/../a.csv`) – are two sheets of one Excel file with different names (a csv file, and
+a sheet-less spec, are never shared) – whatever was created, updated, deleted, moved by the path
+setter, and whatever sheets were set. -/
+theorem locations_distinct (kw : List String) (ops : List Op) : Loc (run kw {} ops).specs :=
   loc_run kw ops {} ⟨by simp [sp], by simp [sp]⟩ (by intro σ hσ; cases hσ)
-
-/-- **locations_distinct (partial: `AllClean`, of which only `trigPathAlias` is used).**  "Two specs
-never claim the same file location": two different specs of one model whose paths denote the same
-FILE below the model's folder (`normPath`: `a.csv`, `./a.csv`, `sub/../a.csv`) are two sheets of one
-Excel file with different names.  Holds as long as no `new_pandas` / path setter asks for a key
-that another key of the model already denotes in another spelling. -/
-theorem locations_distinct_partial (kw : List String) (ops : List Op) (h : AllClean kw {} ops) :
-    LocN (run kw {} ops).specs :=
-  locN_of (keys_distinct kw ops) (noAlias_run kw ops {} (by intro σ hσ; cases hσ) h)
 
 /-- **close_releases (partial).**  After a clean history, closing an open or unknown model
 succeeds, leaves no spec (hence no io) of that model in the IOManager, and the model is gone. -/
@@ -139,13 +132,57 @@ theorem close_releases_partial (kw : List String) (ops : List Op) (m : Nat) (h :
 /-- **closed_models_hold_no_spec (partial).**  At every point of a clean history – not only right
 after `close` – the IOManager holds no spec (hence no io) of any closed model, whatever was done
 through the handles of closed models in between (assignments, deletions, `update_pandas`, a second
-`close`, new spaces and cells …) except `new_pandas` (`trigClosedNew`). -/
+`close`, new spaces and cells; `new_pandas` is refused). -/
 theorem closed_models_hold_no_spec_partial (kw : List String) (ops : List Op) (h : AllClean kw {} ops) :
     ∀ σ ∈ (run kw {} ops).specs, σ.group ∉ (run kw {} ops).closed := by
   intro σ hσ hin
   have := closedFree_run kw ops {} rinv_empty (by intro σ hσ; cases hσ) h σ hσ
   rw [List.contains_eq_mem, decide_eq_false_iff_not] at this
   exact this hin
+
+/-! ## The registry of file objects: relative and absolute paths (`Kernels/IOKeys.lean`) -/
+
+/-- **io_keys_unique** (every history of creations, path changes – relative→relative,
+relative→absolute, absolute→relative, absolute→absolute, accepted or refused – and removals, from
+any models): no two file objects are registered under one key, and none twice. -/
+theorem io_keys_unique (ops : List IOKeys.Op) :
+    (∀ a ∈ (IOKeys.run {} ops).ios, ∀ b ∈ (IOKeys.run {} ops).ios, a.group = b.group → a.path = b.path → a = b) ∧
+    (∀ a ∈ (IOKeys.run {} ops).ios, ∀ b ∈ (IOKeys.run {} ops).ios, a.id = b.id → a = b) :=
+  ⟨(IOKeys.inv_run ops {} ⟨by simp, by simp, by simp⟩).keyUnique,
+   (IOKeys.inv_run ops {} ⟨by simp, by simp, by simp⟩).idUnique⟩
+
+/-- **io_keys_are_locations (partial: no path change from an absolute to a relative path).**  The key
+a file object is registered under IS the file it is written to – an absolute path in the
+session-wide group, a relative path in the group of its model (the file below that model's folder) –
+after every history, however files are created and moved.  With `io_keys_unique`: keys and file
+locations are in bijection, through the path setter too; two file objects never denote one file. -/
+theorem io_keys_are_locations_partial (ops : List IOKeys.Op) (h : IOKeys.NoAbsToRel {} ops) :
+    ∀ a ∈ (IOKeys.run {} ops).ios, a.group.isNone = IOKeys.isAbs a.path := by
+  intro a ha
+  have := IOKeys.wellKeyed_run ops {} (by simp) h a ha
+  simpa [IOKeys.Io.wellKeyed] using this
+
+/-- the path setter from an absolute to a relative path leaves the file in the session-wide group
+(recorded finding C18-absolute-io-shared): a second file object under the same relative path in the
+model's own group is then accepted – two file objects, one file -/
+theorem io_keys_are_locations_fails_abs_to_rel :
+    ¬ ∀ (ops : List IOKeys.Op), ∀ a ∈ (IOKeys.run {} ops).ios, a.group.isNone = IOKeys.isAbs a.path := by
+  intro h
+  have := h [.claim 0 "/t/a.csv", .move 0 "a.csv", .claim 0 "a.csv"] ⟨0, none, "a.csv"⟩ (by decide +kernel)
+  revert this; decide +kernel
+
+/-- non-vacuity: all four kinds of move, a refused move onto a key in use, creations on the
+destinations afterwards from the same and from another model -/
+def keyDemo : List IOKeys.Op :=
+  [.claim 0 "a.csv", .claim 0 "sub/../b.xlsx", .move 0 "/t/M0/./c.csv", .claim 1 "/t/M0/c.csv",
+   .claim 0 "a.csv", .move 1 "/t/M0/c.csv", .move 0 "/t/d.csv", .move 1 "x/b.xlsx", .claim 1 "b.xlsx", .drop 0]
+
+example : IOKeys.NoAbsToRel {} keyDemo := by decide +kernel
+example : (IOKeys.run {} keyDemo).ios.map (fun i => (i.id, i.group, i.path)) =
+    [(2, some 0, "a.csv"), (1, some 0, "x/b.xlsx"), (3, some 1, "b.xlsx")] := by decide +kernel
+example : ((IOKeys.stepR (IOKeys.run {} (keyDemo.take 3)) (.claim 1 "/t/M0/c.csv")).2,
+    (IOKeys.stepR (IOKeys.run {} (keyDemo.take 5)) (.move 1 "/t/M0/c.csv")).2) =
+    (.existing 0, .refused) := by decide +kernel
 
 /-! ## The full statements fail: one witness per known finding -/
 
@@ -199,28 +236,23 @@ theorem close_releases_fails_double_spec :
   have := h [] wDoubleSpec 0
   revert this; decide +kernel
 
-/-- C18-closed-model-new-spec -/
+/-- fixed C18-closed-model-new-spec -/
 def wClosedNew : List Op :=
   setup ++ [.close 0, .newPandas s1 "x" "a.csv" true none (.df 0), .close 0]
-/-- C18-path-alias -/
+/-- fixed C18-path-alias -/
 def wPathAlias : List Op :=
   setup ++ [.newPandas s1 "x" "a.csv" true none (.df 0), .newPandas s1 "y" "sub/../a.csv" true none (.df 1)]
 
-/-- `new_pandas` through the handle of a space of a CLOSED model is accepted; the spec (and its
-io) stays, also after closing again -/
-theorem close_releases_fails_closed_model :
-    ¬ ∀ (kw : List String) (ops : List Op), ∀ σ ∈ (run kw {} ops).specs, σ.group ∉ (run kw {} ops).closed := by
-  intro h
-  have := h [] wClosedNew
-  revert this; decide +kernel
+/-- fixed C18-closed-model-new-spec: `new_pandas` through the handle of a space of a closed model
+is refused, nothing is left -/
+example : (match (stepR [] (run [] {} (wClosedNew.take 3)) (wClosedNew.getD 3 (.close 0))).2 with
+    | .error .value => true
+    | _ => false) = true ∧ (run [] {} wClosedNew).specs = [] := by decide +kernel
 
-/-- `a.csv` and `sub/../a.csv` are different keys and the same file: two csv specs on one file -/
-theorem locations_distinct_fails_path_alias :
-    ¬ ∀ (kw : List String) (ops : List Op), LocN (run kw {} ops).specs := by
-  intro h
-  have := h [] wPathAlias ⟨0, 0, "a.csv", true, none, .df 0⟩ (by decide +kernel)
-    ⟨1, 0, "sub/../a.csv", true, none, .df 1⟩ (by decide +kernel) rfl (by decide +kernel) (by decide)
-  exact absurd this.1 (by decide)
+/-- fixed C18-path-alias: `sub/../a.csv` is the key `a.csv`, the second csv spec is refused -/
+example : (match (stepR [] (run [] {} (wPathAlias.take 3)) (wPathAlias.getD 3 (.close 0))).2 with
+    | .error .value => true
+    | _ => false) = true ∧ (run [] {} wPathAlias).specs.map (·.path) = ["a.csv"] := by decide +kernel
 
 /-! ## Non-vacuity -/
 
@@ -242,8 +274,7 @@ example : AllClean [] {} demo := by decide +kernel
 example : ((run [] {} demo).specs.map (fun σ => (σ.val, σ.path, σ.sheet))) =
     [(.df 1, "b.xlsx", some "s2")] := by decide +kernel
 example : IOInv (run [] {} demo) := spec_iff_referenced_partial [] demo (by decide +kernel)
-example : Loc (run [] {} demo).specs := keys_distinct [] demo
-example : LocN (run [] {} demo).specs := locations_distinct_partial [] demo (by decide +kernel)
+example : Loc (run [] {} demo).specs := locations_distinct [] demo
 /-- the rejected creation of `demo` is really rejected -/
 example : (match (stepR [] (run [] {} (demo.take 9)) (demo.getD 9 (.close 0))).2 with
     | .error .value => true
